@@ -278,6 +278,8 @@ def fuzz_contract(qual, seed=0, n=300, registry=None):
     rng = random.Random('%s-%d' % (qual, seed))
     tried = 0
     gens = list(pools.function_inputs(c.target, seed)) or None
+    if gens is None and any(isinstance(k, kinds.KObj) for k in c.param_kinds.values()):
+        return None, 0
     for k in range(n):
         if gens is not None:
             if k >= len(gens):
@@ -402,7 +404,12 @@ def crosscheck(qual, seed, n, registry):
     cases, bad, tried = 0, [], 0
     gens = list(pools.function_inputs(c.target, seed))
     rng.shuffle(gens)
-    while cases < n and tried < 60 * n:
+
+    def opaque(k):
+        return isinstance(k, kinds.KObj) or (isinstance(k, (kinds.KOpt, kinds.KList)) and opaque(getattr(k, 'inner', None) or getattr(k, 'elem', None)))
+    if not gens and any(opaque(k) for k in c.param_kinds.values()):
+        return 0, []        # parameters of an abstract sort have no native rendering without a pool
+    while cases < n and tried < 25 * n:
         tried += 1
         if gens:
             inp = gens.pop()
